@@ -575,6 +575,10 @@ func (ssc *defaultStatefulSetControl) updateStatefulSet(
 	if set.Spec.UpdateStrategy.RollingUpdate != nil && set.Spec.UpdateStrategy.RollingUpdate.Partition != nil {
 		updateMin = int(*set.Spec.UpdateStrategy.RollingUpdate.Partition)
 	}
+	// the schema does not reject a negative partition; it means "no pod is held back"
+	if updateMin < 0 {
+		updateMin = 0
+	}
 	// we terminate the Pod with the largest ordinal that does not match the update revision.
 	for target := len(replicas) - 1; target >= updateMin; target-- {
 		if replicas[target] == nil {
